@@ -10,7 +10,7 @@
  *                                              seed (shape i = from..from+count-1) and round-trips them the same way.
  *
  * Output (on the ORIGINAL stdout, one flushed line per case; the front end's own chatter goes to /dev/null):
- *   REC path=<p> status=ok hash=<fnv64 of the serialised bytes> size=<bytes> strings= funcs= imports= debug= code= fields=<n>
+ *   REC path=<p> status=ok hash=<fnv64 of the serialised bytes> size=<bytes> strings= funcs= imports= debug= code= maxfn= maxlocals= maxstr= fields=<n>
  *   REC path=<p> status=skip stage=<lex|parse|imports|typecheck|codegen> [rc=|sig=]      (program not accepted: not a C10 case)
  *   REC path=<p> status=DIFF stage=<roundtrip|idempotence|serialize|deserialize> what=<field> ... detail=<first difference>
  *   REC path=<p> status=CRASH stage=<serialize|deserialize|compare|reserialize> sig=<n>|rc=<n>
@@ -151,8 +151,17 @@ static void round_trip(const NvmModule *m, const char *extra) {
     } else {
         long d = first_byte_diff(b1, b2, n1);
         if (d >= 0) fprintf(rec, "status=DIFF stage=idempotence what=bytes offset=%ld detail=first:0x%02x,second:0x%02x size=%u %s\n", d, b1[d], b2[d], n1, extra);
-        else fprintf(rec, "status=ok hash=%016llx size=%u strings=%u funcs=%u imports=%u debug=%u code=%u fields=%lu %s\n",
-                     (unsigned long long)fnv64(b1, n1), n1, m->string_count, m->function_count, m->import_count, m->debug_count, m->code_size, fields, extra);
+        else {
+            uint32_t maxfn = 0, maxloc = 0, maxstr = 0;
+            for (uint32_t i = 0; i < m->function_count; i++) {
+                if (m->functions[i].code_length > maxfn) maxfn = m->functions[i].code_length;
+                if (m->functions[i].local_count > maxloc) maxloc = m->functions[i].local_count;
+            }
+            for (uint32_t i = 0; i < m->string_count; i++) if (m->string_lengths[i] > maxstr) maxstr = m->string_lengths[i];
+            fprintf(rec, "status=ok hash=%016llx size=%u strings=%u funcs=%u imports=%u debug=%u code=%u maxfn=%u maxlocals=%u maxstr=%u fields=%lu %s\n",
+                    (unsigned long long)fnv64(b1, n1), n1, m->string_count, m->function_count, m->import_count, m->debug_count, m->code_size,
+                    maxfn, maxloc, maxstr, fields, extra);
+        }
     }
     if (stage) *stage = ST_DONE;
     free(b2); nvm_module_free(m2); free(b1);
@@ -250,15 +259,18 @@ static uint32_t rnd(void) { rs = rs * 6364136223846793005ULL + 14426950408889634
 static uint32_t rnd_below(uint32_t n) { return n ? rnd() % n : 0; }
 static uint32_t pick(const uint32_t *v, unsigned n) { return v[rnd_below(n)]; }
 
-static const uint32_t STR_COUNTS[] = {0, 1, 2, 3, 31, 32, 33, 63, 64, 65, 127, 128, 129, 255, 256, 257, 511, 512, 513, 1000};
-static const uint32_t FN_COUNTS[]  = {0, 1, 2, 31, 32, 33, 63, 64, 65, 127, 128, 129, 255, 256, 257, 511, 512};
-static const uint32_t IMP_COUNTS[] = {0, 0, 1, 2, 31, 32, 33, 63, 64, 65, 255, 256, 257};
-static const uint32_t DBG_COUNTS[] = {0, 0, 1, 255, 256, 257, 511, 512, 513, 1500};
+/* the tables go past the limits the headers declare (NVM_MAX_FUNCTIONS 512, NVM_MAX_STRINGS 4096, codegen MAX_EXTERNS 256):
+ * the compiler itself produces 513-entry function tables (512 user functions + __init__) */
+static const uint32_t STR_COUNTS[] = {0, 1, 2, 3, 31, 32, 33, 63, 64, 65, 127, 128, 129, 255, 256, 257, 511, 512, 513, 1000, 1023, 1024, 1025, 4095, 4096, 4097, 5000};
+static const uint32_t FN_COUNTS[]  = {0, 1, 2, 31, 32, 33, 63, 64, 65, 127, 128, 129, 255, 256, 257, 511, 512, 513, 514, 600, 1023, 1024, 1025, 4097};
+static const uint32_t IMP_COUNTS[] = {0, 0, 1, 2, 31, 32, 33, 63, 64, 65, 255, 256, 257, 511, 512, 513, 1025};
+static const uint32_t DBG_COUNTS[] = {0, 0, 1, 255, 256, 257, 511, 512, 513, 1500, 4095, 4096, 4097, 65535, 65536, 65537};
 static const uint32_t CODE_SIZES[] = {0, 1, 17, 255, 256, 4095, 4096, 4097, 8191, 8192, 8193, 65535, 65536, 65537, 300000, 1 << 20, 3000000};
 static const uint32_t U16_EDGE[]   = {0, 1, 2, 3, 7, 255, 256, 257, 0x7FFF, 0x8000, 0xFFFE, 0xFFFF};
 static const uint32_t U32_EDGE[]   = {0, 1, 255, 256, 65535, 65536, 0x7FFFFFFF, 0x80000000u, 0xFFFFFFFEu, 0xFFFFFFFFu};
 static const uint32_t STR_LENS[]   = {0, 1, 2, 3, 4, 5, 7, 8, 15, 16, 17, 40, 255, 256, 257, 1000, 65535, 65536, 65537, 70001};
 #define N(a) (sizeof(a) / sizeof((a)[0]))
+#define AXIS_SHAPES (N(STR_COUNTS) + N(FN_COUNTS) + N(IMP_COUNTS) + N(DBG_COUNTS) + N(CODE_SIZES) + N(STR_LENS))
 
 typedef struct { uint32_t mod, fn; uint16_t pc; uint8_t ret; uint8_t *pt; } SpecImport;
 
@@ -274,6 +286,19 @@ static void one_synth(uint64_t seed, uint32_t idx) {
     uint32_t want_dbg = small ? rnd_below(6)  : pick(DBG_COUNTS, N(DBG_COUNTS));
     uint32_t code_sz  = small ? rnd_below(300) : pick(CODE_SIZES, N(CODE_SIZES));
     if (idx == 0) want_str = want_fn = want_imp = want_dbg = code_sz = 0;       /* the empty module */
+    /* shapes 1..AXIS_SHAPES walk every value of every table once (the other tables small), whatever the seed:
+     * each boundary is visited by every run, not only when the dice pick it */
+    uint32_t force_len = 0xFFFFFFFFu;
+    if (idx >= 1 && idx <= AXIS_SHAPES) {
+        uint32_t ax = idx - 1;
+        want_str = 1 + rnd_below(20); want_fn = rnd_below(8); want_imp = rnd_below(6); want_dbg = rnd_below(6); code_sz = rnd_below(300);
+        if (ax < N(STR_COUNTS)) want_str = STR_COUNTS[ax];
+        else if ((ax -= N(STR_COUNTS)) < N(FN_COUNTS)) want_fn = FN_COUNTS[ax];
+        else if ((ax -= N(FN_COUNTS)) < N(IMP_COUNTS)) want_imp = IMP_COUNTS[ax];
+        else if ((ax -= N(IMP_COUNTS)) < N(DBG_COUNTS)) want_dbg = DBG_COUNTS[ax];
+        else if ((ax -= N(DBG_COUNTS)) < N(CODE_SIZES)) code_sz = CODE_SIZES[ax];
+        else if ((ax -= N(CODE_SIZES)) < N(STR_LENS)) force_len = STR_LENS[ax];
+    }
     if ((want_fn || want_imp) && !want_str) want_str = 1;                      /* names must exist */
 
     NvmModule *m = nvm_module_new();
@@ -288,6 +313,7 @@ static void one_synth(uint64_t seed, uint32_t idx) {
     for (uint32_t i = 0; i < want_str; i++) {
         uint32_t len = (rnd_below(4) == 0) ? pick(STR_LENS, N(STR_LENS)) : rnd_below(24);
         if (len > 300) { if (long_budget-- <= 0) len = rnd_below(24); }
+        if (i == 0 && force_len != 0xFFFFFFFFu) len = force_len;
         if (len == 0) { if (have_empty) len = 1 + rnd_below(6); else have_empty = 1; }
         /* unique by construction: the decimal index is spliced in (unless too short: then a 1-3 byte code of i) */
         char *s = malloc(len + 16);
